@@ -262,6 +262,9 @@ def run(ctx):
     r4(ctx)
 
 
+RULE_FUNCS = [r1, r2, r3, r4]
+
+
 def _rep(a, b):
     def edit(t):
         if a not in t:
